@@ -137,7 +137,7 @@ PROPS = {
     },
     "C02": {
         "obligations": [HM + n for n in ["iter_eq", "leapBody_eq_verlet", "leapfrogCode_eq_verlet", "hmc_step_result", "hmc_step_ignores_carried", "hmc_rows_independent",
-                                         "hmc_step_summand", "verlet_flip_verlet", "verlet_reversible"]],
+                                         "hmc_step_summand", "verlet_flip_verlet", "verlet_reversible", "hmc_step_L0", "hmc_step_two_valued", "hmc_step_length"]],
         "rel32": 3e-3, "abs32": 1e-3, "rel64": 2e-5, "abs64": 2e-6,
         "level_text": "Theorems (any scalar/vector types with + and scalar multiplication; any gradient field, step size, L incl. 0): the coded loop with its carried summand refines L velocity-Verlet steps and re-establishes "
                       "its invariant; each row ends at x or at verlet^[L](x,p).1, the latter exactly when ln u <= H(x,p) - H(x',p'); the step's result does not depend on the summands left by the previous step (no stale gradient after a rejection); "
